@@ -55,6 +55,18 @@ CHECKS = {
    technique="explicit-state search over operation histories of real ValueSummary objects; invariant (disjoint, exhaustive guards; denotation) evaluated in every state under all 2^7 valuations",
    text="All histories of new/apply_bin_op/apply_ite/coalesce/import_into_guard up to depth 3(+1 unary) quick / 4(+1) thorough over a fixed terminal set are replayed on real summaries (through the cfg(patronus_verif) hooks); in every state and for every valuation of the terminals exactly one guard must hold and the selected value must equal the reference denotation; expr_to_guard is swept over all boolean terms with <= 2 operators.",
    note="Trusted: reference denotation computed by pvcore evalref; hooks verif_entries/verif_eval only read."),
+ "C07": dict(level="model_checking", engine="drv-sys", design="§4 C07",
+   technique="explicit-state search over operation histories (init/set/step/snapshot/restore, all reads after every operation) of the real Interpreter against a reference simulator",
+   text="All histories up to depth 6 (quick) / 7 (thorough) over the operation alphabet are replayed on fresh Interpreter objects for every system of the family; after every operation every state, input, output, bad, constraint, init, next expression and inner node is read and compared with the reference simulator; states are merged by the reference model's key (state values, input values, ordered snapshot contents).",
+   note="Trusted: reference simulator on pvcore::tsref/evalref. Values of next-less states and random initial values are adopted from the simulator and only their consequences checked."),
+ "C11": dict(level="exploration", engine="drv-sys", design="§4 C11",
+   technique="bounded-exhaustive system enumeration; every function compared under all valuations; lock-step reference simulation over all short input sequences",
+   text="For every system of the family (S1+S3, +S2 thorough; named intermediate nodes; anonymous-prefixed inputs/states) simplify_expressions and replace_anonymous_inputs_with_zero are applied to a clone; inputs/states lists, every init/next/output/bad/constraint function (all valuations) and all executions up to 3-4 steps must agree with the original (restricted to zero for removed inputs), and removed inputs must not occur anywhere.",
+   note="Trusted: pvcore reference evaluator and TS semantics."),
+ "C17": dict(level="model_checking", engine="drv-sys", design="§4 C17",
+   technique="every sub-expression as root x three cone variants; tightness against an independent dependency search; sufficiency by exhaustive perturbation of all executions on the reference semantics",
+   text="For every system of the family and every sub-expression as root, each of the three cone functions must return only declared inputs/states, exactly the set an independent dependency-graph search reaches, and changing any symbol outside the cone in any execution (all initial states x all input sequences up to the horizon) must never change the root's value.",
+   note="Trusted: pvcore reference semantics; horizon 3 (quick) / 5 (thorough)."),
 }
 
 NOT_YET = {}
@@ -93,6 +105,7 @@ def main():
             {"name": "drv-mc", "path": "/verif/harness/drv-mc", "serves_properties": ["C02", "C03", "C04", "C10", "C15"], "kind_free_text": "real bmc/pdr/encoding run in worker subprocesses against the reference solver refsmt (smtref crate) placed first on PATH under the real solvers' names; explicit-state oracle pvcore::tsref"},
             {"name": "drv-smt", "path": "/verif/harness/drv-smt", "serves_properties": ["C05", "C14"], "kind_free_text": "term/command/model-value enumeration against the strict reference SMT-LIB front end smtref"},
             {"name": "drv-misc", "path": "/verif/harness/drv-misc", "serves_properties": ["C19", "C20"], "kind_free_text": "rule-instance enumeration for the e-graph rewrites; explicit-state history search over ValueSummary through the patronus_verif hooks"},
+            {"name": "drv-sys", "path": "/verif/harness/drv-sys", "serves_properties": ["C07", "C11", "C17"], "kind_free_text": "explicit-state history search over the real Interpreter; system-transformation and cone-of-influence sweeps against the reference TS semantics"},
             {"name": "drv-expr", "path": "/verif/harness/drv-expr", "serves_properties": ["C01", "C06", "C12", "C13"], "kind_free_text": "bounded-exhaustive enumeration of terms / construction histories over the real expression code"},
         ],
         "checks": checks,
